@@ -126,7 +126,7 @@ class Env:
         self.cpulist = cpulist or (f"0-{possible_cpus - 1}" if possible_cpus > 1 else "0")
         self.cpulist_fault = None      # "unreadable" / "garbage": the possible-CPU file fails
         self.loop_max_iterations = None    # iteration budget of every loop made by new_loop
-        self.affinity_cpus = 1         # CPUs this process may run on (<= online)
+        self.affinity_cpus = None      # CPUs this process may run on (None: all online ones)
         self.bus = SimBus(self.world, ifname, faults=faults, kernel=self.kernel)
         self.buses = {ifname: self.bus}
         self.logcap = LogCapture(self.world)
@@ -174,6 +174,7 @@ class Env:
         import ebpfcat.xdp as xdp
         import ebpfcat.bpf as bpf
         import ebpfcat.arraymap as arraymap
+        import ebpfcat.ebpf as ebpf_mod
         p = self.patches
         p.set(ethercat, "randint", self._randint("rand/ethercat"))
         p.set(ebpfcat_mod, "randrange", self._randrange("rand/ebpfcat"))
@@ -213,11 +214,17 @@ class Env:
             p.set(arraymap, "open", arraymap_open)
             # the process may be pinned to fewer CPUs than are online (taskset, cpuset):
             # whatever asks the OS for that gets the simulated answer
+            def n_affinity():
+                return self.affinity_cpus or self.online_cpus
+            import os as real_os_module
             for name in ("sched_getaffinity", "process_cpu_count"):
-                if hasattr(arraymap, name):
-                    p.set(arraymap, name,
-                          (lambda pid=0: set(range(self.affinity_cpus)))
-                          if name == "sched_getaffinity" else (lambda: self.affinity_cpus))
+                fake = (lambda pid=0: set(range(n_affinity()))) \
+                    if name == "sched_getaffinity" else (lambda: n_affinity())
+                if hasattr(real_os_module, name):
+                    p.set(real_os_module, name, fake)       # os.sched_getaffinity(0)
+                for mod in (arraymap, ebpf_mod, bpf):
+                    if hasattr(mod, name):                  # from os import sched_getaffinity
+                        p.set(mod, name, fake)
             if self.monitor is not None:
                 self.monitor.install(p, bpf)
         if self.sched is not None:
